@@ -155,6 +155,12 @@ class ZChar(SymVal):
         self.code = code
 
     def sym_eq(self, other):
+        if type(self.code).__name__ == "LB":
+            if isinstance(other, str):
+                return self.code.sym_eq(ord(other)) if len(other) == 1 else False
+            if isinstance(other, ZChar):
+                return self.code.sym_eq(other.code)
+            return False
         if isinstance(other, str):
             if len(other) != 1:
                 return False
@@ -170,7 +176,11 @@ class ZChar(SymVal):
         return NotImplemented
 
     def sym_in_str(self, ctx, container):
-        """c in "ALPHABET"  -> table abstraction"""
+        """c in "ALPHABET"  -> table abstraction (interpreted disjunction for bit-vector codes)"""
+        if type(self.code).__name__ == "LB":
+            if self.code.origin is not None and self.code.origin[0] == container:
+                return True             # table[i] in table
+            return z3.Or(*[self.code.v == ord(ch) for ch in container]) if container else False
         tab = Table.of(container)
         return tab.IN(self.code)
 
@@ -266,3 +276,124 @@ class Table:
             if k < 2:
                 S.add(z3.Implies(i == k, self.CHf(i) == ord(ch)))
         return self.CHf(i)
+
+
+def _ceq(a, b):
+    """equality of character codes (ints, z3 Ints or low-bits values)"""
+    for x, y in ((a, b), (b, a)):
+        if type(x).__name__ == "LB":
+            return x.sym_eq(y)
+    return eq(a, b)
+
+
+def _shift_case(c, lo, hi, delta):
+    """ASCII case mapping of one code (S2: str.lower/upper act on A-Z / a-z only, for codes 33..126)"""
+    if isinstance(c, int):
+        return c + delta if lo <= c <= hi else c
+    if type(c).__name__ == "LB":
+        from .lowbits import LB
+        if c.origin is not None and not any(lo <= ord(ch) <= hi for ch in c.origin[0]):
+            return c                    # no character of the table is affected by this case mapping
+        v = c.v
+        return LB(z3.If(z3.And(z3.UGE(v, lo), z3.ULE(v, hi)), v + delta, v), True, 32)
+    return z3.If(z3.And(c >= lo, c <= hi), c + delta, c)
+
+
+class CStr(SymVal):
+    """a string of CONCRETE length whose characters are symbolic codes (python ints or z3 Ints)"""
+    def __init__(self, codes):
+        self.codes = list(codes)
+
+    @staticmethod
+    def of(text):
+        return CStr([ord(c) for c in text])
+
+    def sym_type(self):
+        return str
+
+    def sym_len(self, ctx=None):
+        return len(self.codes)
+
+    def sym_truthy(self, ctx):
+        return len(self.codes) > 0
+
+    def sym_iter(self, ctx):
+        return [ZChar(c) for c in self.codes]
+
+    def native(self):
+        if all(isinstance(c, int) for c in self.codes):
+            return "".join(chr(c) for c in self.codes)
+        return None
+
+    def sym_eq(self, other):
+        o = other
+        if isinstance(o, str):
+            o = CStr.of(o)
+        if not isinstance(o, CStr):
+            return False
+        if len(o.codes) != len(self.codes):
+            return False
+        return land(*[_ceq(a, b) for a, b in zip(self.codes, o.codes)])
+
+    def sym_compare(self, ctx, op, other, reflected):
+        if isinstance(op, (ast.Eq, ast.NotEq)):
+            r = self.sym_eq(other)
+            return r if isinstance(op, ast.Eq) else lnot(r)
+        return NotImplemented
+
+    def sym_subscript(self, ctx, idx):
+        if isinstance(idx, slice):
+            a, b = simplify_native(idx.start), simplify_native(idx.stop)
+            if is_sym(a) or is_sym(b):
+                raise Undecided("symbolic slice of a concrete-length string")
+            return CStr(self.codes[slice(a, b)])
+        idx = simplify_native(idx)
+        if is_sym(idx):
+            raise Undecided("symbolic index into a concrete-length string")
+        try:
+            return ZChar(self.codes[idx])
+        except IndexError:
+            raise PyRaise(IndexError)
+
+    def sym_binop(self, ctx, op, other, reflected):
+        if isinstance(op, ast.Add):
+            o = other
+            if isinstance(o, str):
+                o = CStr.of(o)
+            elif isinstance(o, ZChar):
+                o = CStr([o.code])
+            if not isinstance(o, CStr):
+                raise Undecided("concatenation with " + type(other).__name__)
+            return CStr(o.codes + self.codes) if reflected else CStr(self.codes + o.codes)
+        raise Undecided("string operator")
+
+    def sym_getattr(self, ctx, name):
+        if name == "lower":
+            return lambda: CStr([_shift_case(c, 65, 90, 32) for c in self.codes])
+        if name == "upper":
+            return lambda: CStr([_shift_case(c, 97, 122, -32) for c in self.codes])
+        if name == "rfind":
+            def rfind(sub, *rest):
+                if rest or not isinstance(sub, str) or len(sub) != 1:
+                    raise Undecided("rfind variant")
+                for p in range(len(self.codes) - 1, -1, -1):
+                    if ctx.branch(_ceq(self.codes[p], ord(sub))):
+                        return p
+                return -1
+            return rfind
+        if name == "find":
+            def find(sub, *rest):
+                if rest or not isinstance(sub, str) or len(sub) != 1:
+                    raise Undecided("find variant")
+                for p in range(len(self.codes)):
+                    if ctx.branch(_ceq(self.codes[p], ord(sub))):
+                        return p
+                return -1
+            return find
+        raise Undecided("str." + name + " on a symbolic string")
+
+    def materialize(self):
+        return self.native()
+
+    def __repr__(self):
+        return f"CStr({len(self.codes)})"
